@@ -65,8 +65,9 @@ fn star(ce: &N) -> Option<N> { let mut l = vec![b"*".to_vec()]; l.extend(labels_
 // ------------------------------------------------------------------ keys, signing
 
 struct ZKey { zone: N, pair: KeyPair, dnskey: Dnskey<Bytes>, tag: u16 }
-fn gen_key(zone: &N) -> ZKey {
-    let (sec, pubk) = generate(&GenerateParams::EcdsaP256Sha256, 257).expect("keygen");
+fn gen_key(zone: &N) -> ZKey { gen_key_flags(zone, 257) }
+fn gen_key_flags(zone: &N, flags: u16) -> ZKey {
+    let (sec, pubk) = generate(&GenerateParams::EcdsaP256Sha256, flags).expect("keygen");
     let pair = KeyPair::from_bytes(&sec, &pubk).expect("keypair");
     let dnskey = Dnskey::new(pubk.flags(), pubk.protocol(), pubk.algorithm(), Bytes::copy_from_slice(pubk.public_key().as_ref())).unwrap();
     let tag = dnskey.key_tag();
@@ -255,7 +256,10 @@ impl World {
         n3z.add("n3.sec.", soa("n3.sec.")); n3z.add("n3.sec.", ns("ns.n3.sec."));
         n3z.add("www.n3.sec.", a([192, 0, 2, 31])); n3z.add("*.wild.n3.sec.", a([192, 0, 2, 39]));
         n3z.add("b.a.n3.sec.", a([192, 0, 2, 33])); n3z.add("alias.n3.sec.", ZD::Cname(Cname::new(nm("www.n3.sec."))));
-        let mut zones = vec![root, sec, zone, other, ins, uns, dlg, n3z];
+        n3z.add("deleg.n3.sec.", ns("ns.deleg.n3.sec."));
+        let mut dlg3 = Zone::new("deleg.n3.sec.", false);
+        dlg3.add("deleg.n3.sec.", soa("deleg.n3.sec.")); dlg3.add("deleg.n3.sec.", ns("ns.deleg.n3.sec.")); dlg3.add("www.deleg.n3.sec.", a([198, 51, 100, 4]));
+        let mut zones = vec![root, sec, zone, other, ins, uns, dlg, n3z, dlg3];
         for z in zones.iter_mut() { z.finish(); }
         World { zones, other_key_zone: 3 }
     }
@@ -472,7 +476,7 @@ fn mutate(w: &World, r: &mut Resp, atk: &Attack, pick: usize, zone_key: Option<&
 // ------------------------------------------------------------------ upstream
 
 #[derive(Clone)]
-struct Script { attack: Attack, on_query: usize, pick: usize, raw: Option<(N, u16, Message<Bytes>)> }
+struct Script { attack: Attack, on_query: usize, pick: usize, raw: Vec<(N, u16, Message<Bytes>)> }
 struct Hit { qname: N, qtype: Rtype, truth: Truth, honest: Resp, sent: Resp }
 struct MockInner { world: Arc<World>, script: Mutex<Script>, count: Mutex<usize>, applied: Mutex<bool>, log: Mutex<Vec<String>>, hit: Mutex<Option<Hit>>, first: Mutex<Option<Resp>> }
 #[derive(Clone)]
@@ -494,7 +498,7 @@ impl Mock {
         let sc = self.0.script.lock().unwrap().clone();
         let idx = { let mut c = self.0.count.lock().unwrap(); *c += 1; *c - 1 };
         self.0.log.lock().unwrap().push(format!("{}/{}", qname, qtype));
-        if let Some((n, t, m)) = &sc.raw {
+        for (n, t, m) in &sc.raw {
             if rfc_eq(n, qname) && *t == qtype.to_int() { *self.0.applied.lock().unwrap() = true; return m.clone(); }
         }
         let (mut r, truth) = honest(w, qname, qtype, 0);
@@ -812,7 +816,7 @@ fn main() {
     // section, all really signed) is validated by the real context; the model gets
     // the groups as a correct signature validation must see them.
     let world = Arc::new(World::new());
-    let quiet = Script { attack: Attack::None, on_query: 0, pick: 0, raw: None };
+    let quiet = Script { attack: Attack::None, on_query: 0, pick: 0, raw: vec![] };
     {
         let w = world.clone();
         let vc = ValidationContext::new(w.anchors(), Mock::new(w.clone(), quiet.clone()));
@@ -1040,6 +1044,7 @@ fn main() {
         ("www.deleg.zone.sec.", Rtype::A), ("nope.deleg.zone.sec.", Rtype::A), ("ins.", Rtype::DS), ("WWW.Zone.SEC.", Rtype::A),
         ("www.n3.sec.", Rtype::A), ("www.n3.sec.", Rtype::TXT), ("nope.n3.sec.", Rtype::A), ("x.y.nope.n3.sec.", Rtype::A), ("a.n3.sec.", Rtype::A),
         ("x.wild.n3.sec.", Rtype::A), ("x.wild.n3.sec.", Rtype::TXT), ("alias.n3.sec.", Rtype::A), ("n3.sec.", Rtype::DS), ("c.a.n3.sec.", Rtype::A),
+        ("www.deleg.n3.sec.", Rtype::A), ("deleg.n3.sec.", Rtype::DS), ("nope.deleg.n3.sec.", Rtype::A), ("www.q.n3.sec.", Rtype::A), ("x.y.z.n3.sec.", Rtype::A),
     ];
     let run_case = |out: &mut Out, label: &str, qn: &N, qt: Rtype, sc: Script, use_conn: bool, do_flag: bool| -> (Option<Result<(ValidationState, u32), String>>, Mock, Truth, Resp) {
         let mock = Mock::new(w.clone(), sc.clone());
@@ -1111,7 +1116,7 @@ fn main() {
         let resp = Resp { rcode: Rcode::NOERROR, answer: vec![], authority: vec![RRset { rrs: vec![rec(&bad, 300, ZD::Nsec3(n3))], sigs: vec![] }] };
         let sec = nm("sec.");
         let m = build_msg(9, &sec, Rtype::DS, &resp);
-        let sc = Script { attack: Attack::None, on_query: 0, pick: 0, raw: Some((sec.clone(), Rtype::DS.to_int(), m)) };
+        let sc = Script { attack: Attack::None, on_query: 0, pick: 0, raw: vec![(sec.clone(), Rtype::DS.to_int(), m)] };
         idx += 1;
         if out.wants(idx) {
             let (res, _, _, _) = run_case(&mut out, "ds_reply_nsec3_bad_owner_label", &nm("www.zone.sec."), Rtype::A, sc, false, true);
@@ -1128,7 +1133,7 @@ fn main() {
             let sig = sign(k, &rrs);
             let resp = Resp { rcode: Rcode::NOERROR, answer: vec![RRset { rrs, sigs: vec![sig] }], authority: vec![] };
             let m = build_msg(9, &z.apex, Rtype::DNSKEY, &resp);
-            let sc = Script { attack: Attack::None, on_query: 0, pick: 0, raw: Some((z.apex.clone(), Rtype::DNSKEY.to_int(), m)) };
+            let sc = Script { attack: Attack::None, on_query: 0, pick: 0, raw: vec![(z.apex.clone(), Rtype::DNSKEY.to_int(), m)] };
             idx += 1;
             if out.wants(idx) {
                 let (res, _, _, _) = run_case(&mut out, &format!("dnskey_ttl_{}", ttl), &nm("www.zone.sec."), Rtype::A, sc, false, true);
@@ -1146,7 +1151,7 @@ fn main() {
         let (qs, qt) = r.pick(&queries).clone();
         let qn = nm(qs);
         let atk = r.pick(ATTACKS).clone();
-        let sc = Script { attack: atk.clone(), on_query: if r.chance(1, 2) { 0 } else { r.below(6) as usize }, pick: r.below(1000) as usize, raw: None };
+        let sc = Script { attack: atk.clone(), on_query: if r.chance(1, 2) { 0 } else { r.below(6) as usize }, pick: r.below(1000) as usize, raw: vec![] };
         let use_conn = r.chance(1, 4);
         idx += 1; if !out.wants(idx) { continue; }
         let (res, mock, _truth, _hresp) = run_case(&mut out, "adv", &qn, qt, sc.clone(), use_conn, true);
@@ -1194,6 +1199,168 @@ fn main() {
                 let on_path = is_suffix(&h.qname, &w.zone_for(&sname, qt).apex);
                 if essential && on_path { out.check(false, "secure_without_chain", &c, &format!("{} {} reply had no valid signature left, verdict still secure", h.qname, h.qtype)); }
             }
+        }
+    }
+    // ---------------- (5) targeted adversaries against the orchestration
+    let set_of = |x: (Vec<Rec>, Option<Rec>)| RRset { rrs: x.0, sigs: x.1.into_iter().collect() };
+    let reown = |rr: &Rec, o: &N| Record::new(o.clone(), rr.class(), rr.ttl(), rr.data().clone());
+    let verdict = |out: &mut Out, vc: &ValidationContext<Mock>, c: &str, qn: &N, qt: Rtype, resp: &Resp| -> Option<ValidationState> {
+        out.begin(c);
+        let mut m = build_msg(11, qn, qt, resp);
+        match catch_mut(|| rt.block_on(async { vc.validate_msg(&mut m).await })) {
+            Err(p) => { out.check(false, "panic_validator", c, &p); None }
+            Ok(Err(_)) => None,
+            Ok(Ok((s, _))) => Some(s),
+        }
+    };
+    // (5a) replay on ONE context: a genuine signed answer is validated first, then its RDATA and
+    // RRSIG are served under another owner name / the RRSIG with other data; then the genuine one again
+    for round in 0..(3 * scale) {
+        let vc = ValidationContext::new(w.anchors(), Mock::new(w.clone(), quiet.clone()));
+        let z = &w.zones[2];
+        for (gname, gt) in [("www.zone.sec.", Rtype::A), ("txt.zone.sec.", Rtype::TXT), ("zz.zone.sec.", Rtype::A), ("alias.zone.sec.", Rtype::CNAME)] {
+            let g = nm(gname);
+            let genuine = set_of(z.get(&g, gt).unwrap());
+            let hon = Resp { rcode: Rcode::NOERROR, answer: vec![genuine.clone()], authority: vec![] };
+            idx += 1; if !out.wants(idx) { continue; }
+            let c = format!("e2e replay genuine {} {} round {}", g, gt, round);
+            out.oracle_case(&c, true, "e2e_replay");
+            let s = verdict(&mut out, &vc, &c, &g, gt, &hon);
+            out.check(s == Some(ValidationState::Secure), "honest_not_secure", &c, &format!("{:?}", s.map(st)));
+            for other in ["bank.zone.sec.", "mail.zone.sec.", "ww.zone.sec.", "www.sec.", "www.other.sec.", "WWW.zone.sec.x.", "zone.sec."] {
+                let o = nm(other);
+                if rfc_eq(&o, &g) { continue; }
+                let moved = RRset { rrs: genuine.rrs.iter().map(|x| reown(x, &o)).collect(), sigs: genuine.sigs.iter().map(|x| reown(x, &o)).collect() };
+                let c = format!("e2e replay {} {} RDATA+RRSIG served as {} on the same context", g, gt, o);
+                out.oracle_case(&c, true, "e2e_replay");
+                let s = verdict(&mut out, &vc, &c, &o, gt, &Resp { rcode: Rcode::NOERROR, answer: vec![moved], authority: vec![] });
+                out.check(s != Some(ValidationState::Secure), "secure_replayed_other_owner", &c, "signature made for another owner name accepted");
+            }
+            let mut forged = genuine.clone();
+            let f = forge(&forged.rrs[0]);
+            if f.data() != forged.rrs[0].data() {
+                forged.rrs[0] = f;
+                let c = format!("e2e replay {} {} RRSIG served with other RDATA on the same context", g, gt);
+                out.oracle_case(&c, true, "e2e_replay");
+                let s = verdict(&mut out, &vc, &c, &g, gt, &Resp { rcode: Rcode::NOERROR, answer: vec![forged], authority: vec![] });
+                out.check(s != Some(ValidationState::Secure), "secure_replayed_other_owner", &c, "signature accepted over other data");
+            }
+            // RRSIG of another RRset of the same owner-less kind: same key, other signature
+            let other_sig = z.sigs.get(&(nm("zz.zone.sec."), Rtype::A.to_int())).unwrap();
+            if gt == Rtype::A && !rfc_eq(&g, other_sig.owner()) {
+                let swapped = RRset { rrs: genuine.rrs.clone(), sigs: vec![reown(other_sig, &g)] };
+                let c = format!("e2e replay {} {} with the RRSIG of zz.zone.sec. A", g, gt);
+                out.oracle_case(&c, true, "e2e_replay");
+                let s = verdict(&mut out, &vc, &c, &g, gt, &Resp { rcode: Rcode::NOERROR, answer: vec![swapped], authority: vec![] });
+                out.check(s != Some(ValidationState::Secure), "secure_replayed_other_owner", &c, "signature of another RRset accepted");
+            }
+            let c = format!("e2e replay genuine again {} {} round {}", g, gt, round);
+            let s = verdict(&mut out, &vc, &c, &g, gt, &hon);
+            out.check(s == Some(ValidationState::Secure), "honest_not_secure", &c, &format!("{:?}", s.map(st)));
+        }
+    }
+    // (5b) NSEC3 name error with an incomplete closest-encloser proof
+    {
+        let z = w.zones.iter().find(|z| z.nsec3).unwrap();
+        let soa_set = set_of(z.get(&z.apex, Rtype::SOA).unwrap());
+        let owner_of = |x: &Option<(Vec<Rec>, Option<Rec>)>| x.as_ref().map(|y| nhex(y.0[0].owner()));
+        let mut shapes: Vec<(N, N, N)> = vec![]; // (qname, next closer, closest encloser)
+        for l2 in ["q", "c", "d", "e", "f", "g", "h", "k"] { for l1 in ["www", "x", "m", "a"] {
+            let nc = nm(&format!("{}.n3.sec.", l2)); let q = nm(&format!("{}.{}.n3.sec.", l1, l2));
+            let wc0 = star(&z.apex).unwrap();
+            let o_nc = owner_of(&z.n3_cover(&nc));
+            if o_nc != owner_of(&z.n3_cover(&q)) && o_nc != owner_of(&z.n3_cover(&wc0)) && o_nc != owner_of(&z.n3_match(&z.apex)) { shapes.push((q, nc, z.apex.clone())); }
+        } }
+        shapes.truncate(8);
+        for l in ["x.y", "m.n", "a.b.c"] {
+            let q = nm(&format!("{}.deleg.n3.sec.", l));
+            let labs = labels_of(&q); let nc = name_from_labels(&labs[labs.len() - 4..]).unwrap();
+            shapes.push((q, nc, nm("deleg.n3.sec.")));
+        }
+        let vc = ValidationContext::new(w.anchors(), Mock::new(w.clone(), quiet.clone()));
+        for (q, nc, ce) in &shapes {
+            let below_deleg = !rfc_eq(ce, &z.apex);
+            let wc = star(ce).unwrap();
+            let m_ce = set_of(z.n3_match(ce).unwrap());
+            let c_nc = set_of(z.n3_cover(nc).unwrap());
+            let c_wc = set_of(z.n3_cover(&wc).unwrap());
+            let c_q = set_of(z.n3_cover(q).unwrap());
+            let mk = |sets: Vec<&RRset>| { let mut a = vec![soa_set.clone()]; for s in sets { if !a.iter().any(|x| rfc_eq(x.rrs[0].owner(), s.rrs[0].owner()) && x.rrs[0].rtype() == s.rrs[0].rtype()) { a.push(s.clone()); } } Resp { rcode: Rcode::NXDOMAIN, answer: vec![], authority: a } };
+            // a proof is complete when the records sent contain one covering the next-closer name, one covering
+            // the wildcard at the closest encloser and, unless the closest encloser is the zone apex (the signer
+            // of the SOA, known to exist), one matching the closest encloser; a delegation can never be one
+            let complete = |sets: &[&RRset]| -> bool {
+                let have: Vec<String> = sets.iter().map(|x| nhex(x.rrs[0].owner())).collect();
+                let has = |x: &Option<(Vec<Rec>, Option<Rec>)>| owner_of(x).map_or(false, |o| have.contains(&o));
+                !below_deleg && has(&z.n3_cover(nc)) && has(&z.n3_cover(&wc)) && (rfc_eq(ce, &z.apex) || has(&z.n3_match(ce)))
+            };
+            let lists: Vec<(&str, Vec<&RRset>)> = vec![
+                ("complete proof", vec![&m_ce, &c_nc, &c_wc]),
+                ("next-closer cover omitted", vec![&m_ce, &c_wc]),
+                ("wildcard cover omitted", vec![&m_ce, &c_nc]),
+                ("closest-encloser match omitted", vec![&c_nc, &c_wc]),
+                ("next-closer cover replaced by a cover of the full name", vec![&m_ce, &c_q, &c_wc]),
+                ("only the closest-encloser match", vec![&m_ce]),
+                ("only a cover of the full name", vec![&c_q]),
+            ];
+            let variants: Vec<(&str, Resp, bool)> = lists.into_iter().map(|(w2, l)| { let ok = complete(&l); (w2, mk(l), ok) }).collect();
+            for (what, resp, may_be_secure) in variants {
+                idx += 1; if !out.wants(idx) { continue; }
+                let c = format!("e2e nsec3 NXDOMAIN {} (closest encloser {}{}): {}", q, ce, if below_deleg { ", a delegation" } else { "" }, what);
+                out.oracle_case(&c, true, "e2e_nsec3_proof");
+                let s = verdict(&mut out, &vc, &c, q, Rtype::A, &resp);
+                if what == "complete proof" && !below_deleg { out.check(s == Some(ValidationState::Secure), "honest_not_secure", &c, &format!("{:?}", s.map(st))); }
+                else if !may_be_secure {
+                    out.count(&format!("nsec3_incomplete: {}", what));
+                    out.check(s != Some(ValidationState::Secure), "secure_nsec3_incomplete_proof", &c, "name error accepted as secure");
+                }
+            }
+        }
+    }
+    // (5c) child / anchor DNSKEY RRset not signed by the key the DS (trust anchor) vouches for
+    {
+        let zi = 2usize;
+        let z = &w.zones[zi];
+        let real = z.key.as_ref().unwrap();
+        let www = nm("www.zone.sec.");
+        let dk = |k: &ZKey| rec(&k.zone, 300, ZD::Dnskey(k.dnskey.clone()));
+        for (what, flags, sign_real, expect_secure) in [("attacker KSK added, RRset signed only by it", 257u16, false, false), ("ZSK without DS, RRset signed only by it", 256, false, false),
+                                                         ("ZSK added, RRset signed by the DS key", 256, true, true), ("attacker key replaces the real one, self-signed", 257, false, false)] {
+            let atk = gen_key_flags(&z.apex, flags);
+            let rrs: Vec<Rec> = if what.starts_with("attacker key replaces") { vec![dk(&atk)] } else { vec![dk(real), dk(&atk)] };
+            let sig = if sign_real { sign(real, &rrs) } else { sign(&atk, &rrs) };
+            let m = build_msg(9, &z.apex, Rtype::DNSKEY, &Resp { rcode: Rcode::NOERROR, answer: vec![RRset { rrs, sigs: vec![sig] }], authority: vec![] });
+            let sc = Script { attack: Attack::None, on_query: 0, pick: 0, raw: vec![(z.apex.clone(), Rtype::DNSKEY.to_int(), m)] };
+            let vc = ValidationContext::new(w.anchors(), Mock::new(w.clone(), sc));
+            let data = vec![rec(&www, 300, a([6, 6, 6, 6]))];
+            let resp = Resp { rcode: Rcode::NOERROR, answer: vec![RRset { sigs: vec![sign(&atk, &data)], rrs: data }], authority: vec![] };
+            idx += 1; if !out.wants(idx) { continue; }
+            let c = format!("e2e dnskey zone.sec. DNSKEY reply: {}; www.zone.sec. A signed by the added key", what);
+            out.oracle_case(&c, true, "e2e_dnskey");
+            let s = verdict(&mut out, &vc, &c, &www, Rtype::A, &resp);
+            if expect_secure { out.check(s == Some(ValidationState::Secure), "honest_not_secure", &c, &format!("{:?}", s.map(st))); }
+            else { out.check(s != Some(ValidationState::Secure), "secure_dnskey_not_signed_by_ds_key", &c, "answer signed by a key that no DS vouches for accepted"); }
+            // and the genuinely signed answer on the same context
+            let c2 = format!("{} / genuine www.zone.sec. A afterwards", c);
+            let s2 = verdict(&mut out, &vc, &c2, &www, Rtype::A, &Resp { rcode: Rcode::NOERROR, answer: vec![set_of(z.get(&www, Rtype::A).unwrap())], authority: vec![] });
+            if !expect_secure { out.check(s2 != Some(ValidationState::Secure) || sign_real, "secure_dnskey_not_signed_by_ds_key", &c2, "zone with an unvouched DNSKEY RRset treated as secure"); }
+        }
+        // the same at the trust anchor
+        let rz = &w.zones[0];
+        let rreal = rz.key.as_ref().unwrap();
+        let atk = gen_key(&rz.apex);
+        let rrs = vec![dk(rreal), dk(&atk)];
+        let sig = sign(&atk, &rrs);
+        let m = build_msg(9, &rz.apex, Rtype::DNSKEY, &Resp { rcode: Rcode::NOERROR, answer: vec![RRset { rrs, sigs: vec![sig] }], authority: vec![] });
+        let vc = ValidationContext::new(w.anchors(), Mock::new(w.clone(), Script { attack: Attack::None, on_query: 0, pick: 0, raw: vec![(rz.apex.clone(), Rtype::DNSKEY.to_int(), m)] }));
+        let data = vec![rec(&nm("ns."), 300, a([6, 6, 6, 6]))];
+        let resp = Resp { rcode: Rcode::NOERROR, answer: vec![RRset { sigs: vec![sign(&atk, &data)], rrs: data }], authority: vec![] };
+        idx += 1;
+        if out.wants(idx) {
+            let c = "e2e dnskey root DNSKEY reply: attacker key added, RRset signed only by it; ns. A signed by the added key";
+            out.oracle_case(c, true, "e2e_dnskey");
+            let s = verdict(&mut out, &vc, c, &nm("ns."), Rtype::A, &resp);
+            out.check(s != Some(ValidationState::Secure), "secure_dnskey_not_signed_by_ds_key", c, "answer signed by a key the trust anchor does not vouch for accepted");
         }
     }
     out.finish(&[("label_to_hash_panics", format!("{}", l2h_panics)), ("adversarial_applied", format!("{}", adv_applied)), ("adversarial_applied_still_secure", format!("{}", adv_applied_secure))]);
